@@ -75,7 +75,7 @@ def run(tier, selftest):
     lres = vlib.tlc("MC_LayoutCases", workers=8, coverage=False, timeout=900)
     pats = list(lres.prints("CASE"))
     for e in layoutcheck.ELEMENTS:
-        for p in rng.sample(pats, 8 if tier == "thorough" else 1):
+        for p in rng.sample(pats, 20 if tier == "thorough" else 1):
             docs.append((layoutlib.apply_pattern(e, p)[0], False))
             meta.append({"k": "layout", "e": e, "pat": p})
     want = ("tokens", "tree", "write", "cycle")
